@@ -58,6 +58,9 @@ def gen_case(rng, tier, index):
         splits=rng.choice([None, ["train"], ["train"]]), max_writers=3)
     case = C.base_case(rng, hist)
     case["fault_seed"] = rng.getrandbits(32)
+    # two threads verify the (untouched) dataset at the same time, pre-empted
+    # at source-line granularity inside the digest loop
+    case["concurrent_check"] = rng.random() < 0.3
     case["exhaustive"] = tier == "thorough" and rng.random() < 0.5
     case["samples_per_file"] = 6 if tier == "quick" else 24
     return case
@@ -143,6 +146,41 @@ def run_case(case):
                                     f"{str(e)[:200]}",
                                     key={"handle": who}) from e
                         stats["positive_checks"] += 2
+                if completed and case.get("concurrent_check"):
+                    import sedpack.io.utils as su
+                    utils_py = su.__file__
+                    results = {}
+
+                    def verifier(slot):
+                        def run():
+                            try:
+                                hr.sio.Dataset(root).check(
+                                    show_progressbar=False)
+                                results[slot] = None
+                            except S.SimAbort:
+                                raise
+                            except Exception as e:  # pylint: disable=broad-except
+                                results[slot] = e
+                        return run
+
+                    sc.trace_files = frozenset({utils_py})
+                    sc.line_prob = 0.4
+                    try:
+                        for slot in range(2):
+                            sc.spawn(verifier(slot), name=f"verifier{slot}")
+                        sc.drain("concurrent.check")
+                    finally:
+                        sc.trace_files = frozenset()
+                        sc.line_prob = 0.0
+                    probes["two_concurrent_checks"] += 1
+                    bad = [e for e in results.values() if e is not None]
+                    if bad:
+                        raise Violation(
+                            "C05", "check_rejects_committed_dataset",
+                            f"two threads verifying the untouched dataset at "
+                            f"the same time: {type(bad[0]).__name__}: "
+                            f"{str(bad[0])[:200]}",
+                            key={"handle": "concurrent"})
                 # ---------------------------------- negative direction
                 if completed:
                     with fs.suspended():
@@ -325,7 +363,8 @@ def reach(agg):
                  "rollback"):
         if not f.get(name):
             need.append(f"fault {name} never injected")
-    for name in ("tree_depth_1", "tree_depth_3", "target_list_level_3",
+    for name in ("two_concurrent_checks", "tree_depth_1", "tree_depth_3",
+                 "target_list_level_3",
                  "target_shard_level_3", "algorithms_13"):
         if not p.get(name):
             need.append(f"probe {name} never hit")
